@@ -211,9 +211,16 @@ def check_result_object(ctx, script_path, text, method, n, stats):
         mp = n.module_path
         ds, de = n.get_definition_start_position(), n.get_definition_end_position()
         code = n.get_line_code()
+        kwarg = type(n).__name__ == 'Completion' and name.endswith('=') and n.type == 'param'
     except Exception as e:
         stats['raised'] = stats.get('raised', 0) + 1     # totality is C01's statement
         return
+    if kwarg:
+        # a keyword-argument completion (`foo(ba` -> `bar=`, jedi/api/completion.py:ParamNameWithEquals):
+        # `.name` is the text that is inserted - the parameter's identifier plus the `=` decoration (upstream's
+        # own tests expect `abc=`); the object points at the parameter, whose name is the identifier
+        name = name[:-1]
+        stats['kwarg_completion'] = stats.get('kwarg_completion', 0) + 1
     if line is None or col is None:
         stats['nopos'] = stats.get('nopos', 0) + 1
         return
@@ -438,6 +445,18 @@ def stream_known(ctx):
     stats = {}
     for n in jedi.Script(src, path=path).get_names(all_scopes=True, definitions=True, references=True):
         check_result_object(ctx, path, src, 'get_names', n, stats)
+    # keyword-argument completions (`a=`, `bar=`): judged by the identifier they point at, in every tier
+    for src, line, col in (('def baz(bar, a, **kw):\n    return bar\nbaz(a=\n', 3, 5),
+                           ('def baz(bar, a, **kw):\r\n    return bar\r\nbaz(ba', 3, 6),
+                           ('class C:\n    def m(self, \u00e9t\u00e9, *, key=1):\n        pass\nC().m(', 4, 6)):
+        try:
+            comps = jedi.Script(src, path=path).complete(line, col)
+        except Exception:
+            comps = []
+        for c in comps:
+            if c.name.endswith('='):
+                check_result_object(ctx, path, src, 'complete', c, stats)
+    ctx.notes.append('keyword-argument completions probed: %d' % stats.get('kwarg_completion', 0))
 
 
 # ------------------------------------------------------------------ compare
